@@ -30,7 +30,7 @@ ASSUMPTIONS = ["element enumeration order = list(net.elements) (taken as given b
 
 @st.composite
 def cases(draw):
-    sp = draw(gen_nets.specs(min_ops=3, vsl_prob=2, names="drawn"))
+    sp = draw(gen_nets.specs(min_ops=3, vsl_prob=2, names="drawn", big=8))
     state = draw(gen_nets.distinct_states(sp))
     opts = draw(st.one_of(st.just([]), st.lists(st.sampled_from(S.OPT_NAMES[:3]), unique=True, max_size=3).map(sorted)))
     sympars = draw(st.one_of(st.none(), c03.sympar_choice(sp)))
